@@ -423,6 +423,9 @@ impl Property for C12 {
             sc.set_knob("second_program_at", sc.cmds.len() as i64);
             sc.cmds.extend(extra);
         }
+        if rng.chance(8) {
+            gen::magic_output(rng, &mut sc.cmds);
+        }
         if rng.chance(2) {
             // one line that writes a lot: thousands of copies of one value to an output stream
             let pos = rng.usize(0, sc.cmds.len());
